@@ -1186,6 +1186,15 @@ def main2():
         print("src2v2: FAILED", e)
 
 
+def main3r():
+    """Tie A level 1 for the repair loop: tools/src2v3_repair.py -> coq/gen/Src3r.v (fails closed inside)"""
+    sys.path.insert(0, os.path.dirname(os.path.abspath(__file__)))
+    import src2v3_repair
+    src2v3_repair.main(os.environ.get("VERIF_REPO", "/repo"),
+                       os.environ.get("VERIF_SRC3R_OUT") or os.path.join(os.path.dirname(os.path.normpath(OUT)), "Src3r.v"))
+
+
 if __name__ == "__main__":
     main()
     main2()
+    main3r()
